@@ -14,6 +14,7 @@
    tasks ending) -- any of them may happen at any time, so "all interleavings" = all label sequences.
    Ghost fields: [gen]/[fin] count runs started / finished; call ids.                                                 *)
 From Coq Require Import List Bool Arith ZArith Lia.
+From EN Require Import Gen.ParamsC18.
 Import ListNotations.
 
 Inductive outcome := OOk | OAlreadyRunning | OClosed | OBusy
@@ -174,8 +175,9 @@ Definition step (s : st) (l : label) : option (st * list obs) :=
       | Some (SWait, rest), (TNone | TDone), 0 =>
           (* datagram.py __on_client_coroutine_task_done runs in the finally of the cancelled client task, finds the
              queue non-empty and calls start_soon on the task group that is shutting down -> RuntimeError -> the
-             group re-raises it out of serve_forever *)
-          Some (end_run (set_udpq (set_stask (set_serves s rest) TNone) false), [Ret id (if udpq s then OCrash else OOk)])
+             group re-raises it out of serve_forever.  [udp_restart_guarded] (Gen/ParamsC18.v, regenerated from the
+             source) says whether that restart is skipped for a cancelled client task. *)
+          Some (end_run (set_udpq (set_stask (set_serves s rest) TNone) false), [Ret id (if udpq s && negb udp_restart_guarded then OCrash else OOk)])
       | _, _, _ => None
       end
   | LTaskDone =>
